@@ -1,14 +1,15 @@
 """Which units (and extra engines) serve which property, plus MANIFEST metadata."""
-UNITS = ['u_list', 'u_jobs', 'u_tok', 'u_plan', 'u_exp1', 'u_calc', 'u_exp2', 'u_wait', 'u_fd']
+UNITS = ['u_list', 'u_jobs', 'u_tok', 'u_plan', 'u_exp1', 'u_calc', 'u_exp2', 'u_wait', 'u_fd', 'u_env']
 
 PROPERTY_UNITS = {
     'C03': ['u_list'],
     'C06': ['u_jobs', 'u_wait'],
-    'C05': ['u_list', 'u_jobs', 'u_tok', 'u_plan', 'u_exp1', 'u_calc', 'u_exp2', 'u_wait', 'u_fd'],
+    'C05': ['u_list', 'u_jobs', 'u_tok', 'u_plan', 'u_exp1', 'u_calc', 'u_exp2', 'u_wait', 'u_fd', 'u_env'],
     'C01': ['u_plan', 'u_exp1', 'u_exp2'],
     'C13': ['u_plan', 'u_exp1', 'u_exp2'],
     'C12': ['u_exp1', 'u_exp2'],
     'C10': ['u_exp2'],
+    'C09': ['u_env', 'u_exp2'],
     'C02': ['u_fd', 'u_wait', 'u_plan'],
     'C04': ['u_fd', 'u_plan'],
     'C08': ['u_fd'],
@@ -116,6 +117,15 @@ META['C08'] = {
             '(dup of 1/2) not under contract; known finding: when starting a stage fails (here-string pipe or fork error) that stage\'s descriptors stay open.',
 }
 
+META['C09'] = {
+    'text': 'Over a ghost process environment and working directory, Verus proves per-operation contracts from which every history follows by induction: set_env changes the exported '
+            'value iff the name is exported, else defines a shell variable only; get_env / expansion read the shell variable first, then the environment; unset (remove_env) '
+            'removes the name from both (and the function of that name) iff it is an identifier, else changes nothing; cd: on success shell, $PWD and process directory all equal the '
+            'canonical target and the previous directory is recorded, on any failure nothing changes and the status is 1; NAME=v lines assign every name.',
+    'note': 'std::env and chdir semantics assumed (ghost model); filesystem queries uninterpreted; export (regex captures), read (field splitting: str::split) and the child '
+            'environment construction (inside the exec region) are not under contract; HashMap contracts stated over string views.',
+}
+
 _PENDING = 'not yet brought under contract in this revision of /verif (work in progress; see DESIGN.md)'
 NOT_APPLICABLE = {
     'C14': 'parse tree comes from a macro-generated pest parser and the external, lifetime-parameterised pest::iterators::Pair type; no contract within reach',
@@ -123,5 +133,5 @@ NOT_APPLICABLE = {
     'C18': 'semantics live in SQLite\'s SQL parser (bundled C library); SQL is built with format!, outside Verus',
     'C20': 'needs the lineread completer protocol, a populated filesystem and the escaped-word round trip (a recorded C01 violation)',
 }
-for _p in ['C07', 'C09', 'C11', 'C15']:
+for _p in ['C07', 'C11', 'C15']:
     NOT_APPLICABLE.setdefault(_p, _PENDING)
